@@ -328,6 +328,11 @@ inline void gen_spec(spec_t& c, double max_log10_kappa, int hard_percent = 0)
     {
         c.xstar.assign(n, 0.0);
     }
+    else if (xs == 2)
+    {
+        // close to, but not at the origin: f(x*) is tiny, so the stopping rule is effectively absolute
+        c.xstar = *gen::vec(n, *rc::gen::element(5e-2, 5e-3, 5e-4));
+    }
     else
     {
         c.xstar = *gen::vec(n, 5.0);
